@@ -285,3 +285,24 @@ def extract_block(stmts, opaque_loops=False):
         p.end = "fall"
         done.append(p)
     return done
+
+
+def eval_atom(src, mapping):
+    """Evaluate an atomic condition under a scenario.  `mapping` is a list of (sub-expression source, python value); occurrences are
+    replaced longest-first by the literal and the result is constant-folded.  Raises AnalysisError when the atom cannot be decided."""
+    from .astutil import const_value
+
+    for k, v in sorted(mapping, key=lambda kv: -len(kv[0])):
+        src = src.replace(k, "(%s)" % repr(v))
+    try:
+        e = ast.parse(src, mode="eval").body
+    except SyntaxError:
+        raise AnalysisError("decision table: atom not parseable after substitution: %s" % src)
+    ok, v = const_value(e)
+    if not ok:
+        raise AnalysisError("decision table: atom not decidable in the scenario domain: %s" % src)
+    return bool(v)
+
+
+def feasible(paths, mapping):
+    return [p for p in paths if all(eval_atom(s, mapping) == t for s, t, _ in p.conds)]
